@@ -497,7 +497,13 @@ def run(ctx: Context) -> None:
                 _kind_dimension_names(ctx, ci, dims_fi)
             # default kind
             dk = p.resolve_class_attr(ci, 'default_grid_kind')
-            ctx.require(dk is not None, f"{ci.short}: default_grid_kind is not a class attribute")
+            if dk is None:
+                # computed per dataset (a property): the linear indexes of the polygons, the spatial index and point lookup all take
+                # the default kind to be one fixed grid, the one the polygons are made for
+                dfi = p.resolve_method(ci, 'default_grid_kind')
+                ctx.check('R01.4', False, "default_grid_kind is a constant of the class: which grid the polygons and linear indexes belong to does not depend on the dataset's variables",
+                          dfi or dims_fi, (dfi or dims_fi).node, construct=f"{ci.short}.default_grid_kind is computed")
+                continue
             dkq = p.canonical(dk[0].module.resolve(dotted(dk[1]) or ''))
             ctx.check('R01.4', any(k == dkq and g is None for k, g in kinds), "default_grid_kind is an unconditional member of grid_kinds", dims_fi,
                       dk[1], construct=f"{ci.short}.default_grid_kind = {norm_text(dk[1])}")
